@@ -1,10 +1,10 @@
 SPECIFICATION CheckedSpec
 CONSTANTS
-  NH = 2
+  NH = 3
   MaxBlocks = 1
-  MaxSteps = 4
-  Bases <- BaseAll
-  Layouts <- LaySmall
+  MaxSteps = 8
+  Bases <- Base1
+  Layouts <- LayMid
   Counts <- HostCounts
   Lens <- HostLens
   NilMiner = TRUE
